@@ -95,6 +95,18 @@ def WfGs : List NGraph → Prop
   | g :: gs => WfG g ∧ WfGs gs
 end
 
+mutual
+/-- `WfG` as a program (run by the driver on every real graph next to `checkStructural`) -/
+def wfB : NGraph → Bool
+  | .mk ins inits nodes _ => decide inits.Nodup && !(entryNames ins inits).contains "" && wfNsB nodes
+def wfNsB : List NNode → Bool
+  | [] => true
+  | (.mk _ _ _ subs) :: rest => wfGsB subs && wfNsB rest
+def wfGsB : List NGraph → Bool
+  | [] => true
+  | g :: gs => wfB g && wfGsB gs
+end
+
 def valueNames (ds : List Def) : List String := (ds.filter (fun d => d.1)).map (·.2)
 def nodeNames (ds : List Def) : List String := (ds.filter (fun d => !d.1)).map (·.2)
 
